@@ -208,7 +208,7 @@ func c10(tier string) int {
 		}
 		return out, resp
 	}
-	alpha := wh.AlphaOpts{MaxN: n, Forged: true, HugeOlds: true, RichProof: true}
+	alpha := wh.AlphaOpts{MaxN: n, Forged: true, HugeOlds: true, RichProof: true, Shapes: []string{"plain", "blankext"}}
 	states, trans := 0, int64(0)
 	for _, store := range []string{"mem", "sql"} {
 		fn := func(st wh.MState) []wh.Req {
@@ -232,6 +232,7 @@ func c10(tier string) int {
 	}
 	c10Malformed(run, u, gen, la, lb)
 	c10RateLimit(run, u, gen, la, lb)
+	c10RateRecovery(run, "C10")
 	c10Overlap(run, u, gen, la, lb)
 	c10HugeSizes(run, u, la, lb)
 	c10Faults(run, u, gen, la, lb)
@@ -366,6 +367,59 @@ func c10RateLimit(run *ev.Run, u *uni.U, gen *wh.CPGen, la, lb wh.LogCfg) {
 		}
 		e.Close()
 	}
+}
+
+// c10RateRecovery: pushed-back requests are not processed - and they do not
+// count against later requests either: after a burst far above the configured
+// rate and a quiet period long enough for a token-bucket of that rate to hold
+// a token again (sleeping longer only adds tokens, so slowness cannot raise an
+// alarm), an honest growth step through the endpoint is answered on its
+// merits (200), not 429. Shared by C10 (429 only for requests over the rate)
+// and C08 (refused requests never stop an honest step).
+func c10RateRecovery(run *ev.Run, prop string) {
+	u := uni.New(ev.Seed(), 8, nil)
+	gen := wh.NewCPGen(u)
+	la := wh.LogCfg{Origin: logA(), Key: u.K1}
+	lb := wh.LogCfg{Origin: logB(), Key: u.K2}
+	cp2, _ := gen.Get(la, u.Main, 2, "plain")
+	cp4, _ := gen.Get(la, u.Main, 4, "plain")
+	junk := []byte("old x\n\nnot a checkpoint")
+	for _, regime := range []struct {
+		limit rate.Limit
+		burst int
+		flood int
+		quiet time.Duration
+	}{{5, 5, 200, 600 * time.Millisecond}, {20, 1, 400, 300 * time.Millisecond}, {2, 2, 60, 1200 * time.Millisecond}} {
+		for _, kind := range []string{"valid-resubmissions", "malformed-bodies"} {
+			e := wh.NewEnv(u, wh.Config{Store: "mem", Logs: []wh.LogCfg{la, lb}})
+			h := bastion.VerifNewHandler(omniwitness.VerifWitnessAdapter(e.W), c10Logs(la, lb), u.W1.CosigVerif, regime.limit, regime.burst, true)
+			name := fmt.Sprintf("%v-per-second-burst-%d flood=%s", regime.limit, regime.burst, kind)
+			if r := c10Serve(h, c10Body(0, nil, cp2)); r.Status != 200 {
+				run.Report("rate-limit-first-request-not-served regime="+name, fmt.Sprintf("limit %v burst %d: the very first request was answered %d", regime.limit, regime.burst, r.Status), map[string]any{"kind": "rate-limit", "regime": name})
+				e.Close()
+				continue
+			}
+			pushed := 0
+			for i := 0; i < regime.flood; i++ {
+				b := c10Body(2, nil, cp2)
+				if kind == "malformed-bodies" {
+					b = junk
+				}
+				if c10Serve(h, b).Status == 429 {
+					pushed++
+				}
+			}
+			time.Sleep(regime.quiet)
+			r := c10Serve(h, c10Body(2, u.Main.Proof(2, 4), cp4))
+			run.Add("rate_recovery_probes", 1)
+			run.Hist("rate_recovery", fmt.Sprintf("%s pushed-back=%d-of-%d then=%d", name, pushed/50*50, regime.flood, r.Status))
+			if r.Status != 200 {
+				run.Report(fmt.Sprintf("honest-step-after-pushback status=%d", r.Status), fmt.Sprintf("limit %v/s burst %d: %d of %d %s were pushed back (429); %s later - enough for the bucket to hold a token again - an honest growth 2->4 was answered %d, want 200", regime.limit, regime.burst, pushed, regime.flood, kind, regime.quiet, r.Status), map[string]any{"kind": "rate-limit", "regime": name})
+			}
+			e.Close()
+		}
+	}
+	_ = prop
 }
 
 type readCounter struct {
@@ -627,4 +681,54 @@ func c10SeedRefused(run *ev.Run, leg string, status int) {
 		fmt.Sprintf("a valid first submission (old size 0, empty proof, log-signed checkpoint of size 2) was answered %d, want 200 (while preparing the %s leg; exploration cut here)", status, leg), map[string]any{"kind": "seed-refused", "leg": leg})
 	run.Set("exhaustive", false)
 	os.Exit(run.Finish())
+}
+
+// c03Endpoint (C03's view of the add-checkpoint endpoint): the same kind of
+// search as C10's, smaller, over checkpoint shapes incl. extension lines with
+// a blank line among them; whenever the endpoint does not answer 200 the
+// witness's state (every log, log list) is byte-identical before and after and
+// the answer carries no cosignature of the submitted text.
+func c03Endpoint(run *ev.Run) {
+	u := uni.New(ev.Seed(), 4, []int{0})
+	gen := wh.NewCPGen(u)
+	la := wh.LogCfg{Origin: logA(), Key: u.K1}
+	lb := wh.LogCfg{Origin: logB(), Key: u.K2}
+	setup := func(e *wh.Env) {
+		e.X["handler"] = bastion.VerifNewHandler(omniwitness.VerifWitnessAdapter(e.W), c10Logs(la, lb), u.W1.CosigVerif, rate.Inf, 1, true)
+	}
+	do := func(e *wh.Env, r wh.Req) (wh.Outcome, any) {
+		resp := c10ServeMode(e.X["handler"].(http.Handler), c10Body(r.Old, r.Proof, r.CP), "whole")
+		out := wh.Outcome{Class: fmt.Sprintf("http-%d", resp.Status), Bytes: []byte(resp.Body)}
+		if resp.Status == 200 {
+			out.Class = wh.OK
+		}
+		return out, resp
+	}
+	mon := func(s *wh.Step) {
+		run.Hist("endpoint_answers", s.Out.Class)
+		if s.Out.Class == wh.OK {
+			return
+		}
+		rep := s.Replay()
+		rep["http"] = true
+		sig := fmt.Sprintf("class=endpoint-%s stored=%s submitted-shape=%s", s.Out.Class, stKind(s.StBefore), s.Req.Meta.Shape)
+		if !s.After.Equal(s.Before) {
+			run.Report("state-changed "+sig, fmt.Sprintf("request %q through the add-checkpoint endpoint was answered %s, yet the witness's stored state changed", s.Req.Label, s.Out.Class), rep)
+		}
+		if s.Req.Meta.Text != "" {
+			lines := strings.Split(strings.TrimSuffix(string(s.Out.Bytes), "\n"), "\n")
+			if _, ok := countValid(u.W1.CosigVerif, s.Req.Meta.Text, lines); ok > 0 {
+				run.Report("cosignature-released "+sig, fmt.Sprintf("request %q was answered %s with a valid witness cosignature of the submitted text in the body", s.Req.Label, s.Out.Class), rep)
+			}
+		}
+	}
+	for _, store := range []string{"mem", "sql"} {
+		st, tr := wh.Search(wh.SearchOpts{U: u, Gen: gen, Store: store, Log: la, Extra: []wh.LogCfg{lb}, Alpha: wh.AlphaOpts{MaxN: 4, Forged: true, Shapes: []string{"plain", "ext", "blankext", "junk1"}},
+			Workers: workers(), OnStep: mon, Run: run, DoFn: do, SetupFn: setup})
+		run.Add("states", int64(st))
+		run.Add("transitions", tr)
+		run.Add("traces_validated_against_impl", tr)
+		run.Add("evaluations", tr)
+		run.Add("endpoint_transitions", tr)
+	}
 }
